@@ -66,6 +66,11 @@ def ref_allowed(text, user_agent, path):
     return True
 
 
+def norm_host(h):
+    h = h.lower()
+    return h[:-3] if h.endswith(':80') else h
+
+
 # ------------------------------------------------------------------ generator
 def gen_robots(rng, site, agent_token):
     paths = sorted(set(sitegen.split_url(u)[2] for u in site.pages))
@@ -102,17 +107,26 @@ def gen_robots(rng, site, agent_token):
     pad = ''.join('# padding line %04d %s\n' % (i, 'x' * 60) for i in range(rng.choice([70, 120, 300])))
     if pad_position == 'front':
         lines.append(pad)
+    # comment-only lines (also indented ones) are discarded completely and do not end a group; a comment may also
+    # follow a directive on its line
+    comments = rng.random() < 0.35
+
+    def maybe_comment():
+        if comments and rng.random() < 0.5:
+            lines.append(rng.choice(['# note\n', '   # indented note\n', '\t# tabbed note\n', '#\n', '  #Disallow: /\n']))
     for gi, (agent, rs) in enumerate(groups):
+        maybe_comment()
         lines.append('User-agent: %s\n' % agent)
         for ri, (k, v) in enumerate(rs):
             if pad_position == 'middle' and gi == 0 and ri == 0:
                 lines.append(pad)
-            lines.append('%s: %s\n' % (k, v))
+            maybe_comment()
+            lines.append('%s: %s%s\n' % (k, v, rng.choice(['', ' # trailing', '\t#x']) if comments and v else ''))
         lines.append('\n')
     text = ''.join(lines)
     if rng.random() < 0.4:
         text = text.rstrip('\n')       # file ends right after its last rule, no final newline
-    return text, pad_position
+    return text, pad_position + ('+comments' if comments else '')
 
 
 def gen_case(rng):
@@ -120,14 +134,15 @@ def gen_case(rng):
     return {'site_seed': rng.randrange(1 << 30), 'n_pages': rng.choice([5, 8, 12]), 'mode': mode,
             'robots_seed': rng.randrange(1 << 30), 'concurrent': rng.choice([1, 1, 2, 4, 6]),
             'agent': rng.choice([None, None, 'MyBot/1.0 (+http://x.test)', 'Mozilla/5.0 (compatible; wpull-like)']),
-            'hosts': rng.choice([1, 1, 2]), 'delay_seed': rng.randrange(1 << 30)}
+            'hosts': rng.choice([1, 1, 2, 2, 3]), 'delay_seed': rng.randrange(1 << 30)}
 
 
 def build(case):
     rng = random.Random(case['site_seed'])
     sites = []
-    for h in range(case['hosts']):
-        host = ['a.test', 'b.test'][h]
+    # hosts == 3: two origins that share scheme and host name and differ only in the port
+    names = ['a.test', 'a.test:8080'] if case['hosts'] == 3 else ['a.test', 'b.test'][:case['hosts']]
+    for host in names:
         site = sitegen.generate(rng, host=host, n_pages=case['n_pages'], redirects=False, requisites=False)
         sites.append(site)
     if case['mode'] == 'nofollow':
@@ -155,7 +170,7 @@ def run_case(case, part):
     robots_hits = {}
 
     def robots_handler(req):
-        host = req['host'].lower().replace(':80', '')
+        host = norm_host(req['host'])
         text = robots_text.get(host, '')
         robots_hits[host] = robots_hits.get(host, 0) + 1
         if robots_hits[host] > 60:
@@ -178,14 +193,15 @@ def run_case(case, part):
     handlers = {s.host: sitegen.make_handler(s, robots=robots_handler) for s in sites}
 
     def handler(req):
-        host = req['host'].lower().replace(':80', '')
+        host = norm_host(req['host'])
         if req['target'] == '/robots-real.txt':
             return robots_handler(req)
         h = handlers.get(host)
         return h(req) if h else {'status': 404, 'reason': 'NF', 'body': b''}
-    addrs, port = servers.allocate_addresses(len(sites))
+    same_name = case['hosts'] == 3
+    addrs, port = servers.allocate_addresses(1 if same_name else len(sites), extra_ports=(8080,) if same_name else ())
     srv = servers.Server(handler, addrs, port, delay_seed=case['delay_seed'],
-                         max_delay=0.004 if case['concurrent'] > 1 else 0).start()
+                         max_delay=0.004 if case['concurrent'] > 1 else 0, extra_ports=(8080,) if same_name else ()).start()
     tmp = tempfile.mkdtemp(prefix='vc20')
     try:
         db = os.path.join(tmp, 'crawl.db')
@@ -194,7 +210,7 @@ def run_case(case, part):
                                            '--tries', '2']
         if agent:
             argv += ['--user-agent', agent]
-        res = crawl.run_app(argv, {s.host: addrs[i] for i, s in enumerate(sites)})
+        res = crawl.run_app(argv, {s.host.split(':')[0]: addrs[0 if same_name else i] for i, s in enumerate(sites)})
         rows = crawl.read_table(db) if os.path.exists(db) else []
         log = srv.log.snapshot()
     finally:
@@ -221,7 +237,7 @@ def judge(case, sites, robots_text, pad_positions, res, rows, log, part):
         return
     by_host = {}
     for e in log:
-        host = e['host'].lower().replace(':80', '')
+        host = norm_host(e['host'])
         by_host.setdefault(host, []).append(e)
     rowmap = {r['url']: r for r in rows}
     for s in sites:
@@ -230,7 +246,8 @@ def judge(case, sites, robots_text, pad_positions, res, rows, log, part):
         page_reqs = [e for e in entries if e['target'] not in ('/robots.txt', '/robots-real.txt')]
         text = robots_text[s.host]
         big = len(text) > 4096
-        size_cls = 'over-4KiB-' + pad_positions[s.host] if big else 'small'
+        pp = pad_positions[s.host]
+        size_cls = 'over-4KiB-' + pp if big else 'small' + ('+comments' if '+comments' in pp else '')
         # 1. ordering: robots.txt first
         if page_reqs:
             if not robots_reqs or robots_reqs[0]['seq'] > page_reqs[0]['seq']:
@@ -295,6 +312,8 @@ def judge(case, sites, robots_text, pad_positions, res, rows, log, part):
                 part.violation('row-final-state-after-robots-5xx', {'row': row}, replay)
             part.nontrivial_case('5xx/{}/{}'.format(case['site_seed'], case['concurrent']))
     part.count('crawls_judged')
+    if case['hosts'] == 3:
+        part.count('crawls_with_two_origins_on_one_host_name')
 
 
 def concurrent_miss(robots_reqs):
